@@ -431,6 +431,25 @@ fn numeric(t: &mut Tape, cx: &mut Cx) -> CaseResult {
             check_eq!(cx, c.numcast::<i64>().map(|m| m.to_arr()), Some(want_l), "col-major numcast");
             check_eq!(cx, r.trace(), tr, "row-major trace");
             check_eq!(cx, c.trace(), tr, "col-major trace");
+            // as_ from element types of other sizes (1, 2 and 16 bytes)
+            {
+                let mut a8 = [[0u8; N]; N];
+                let mut a16 = [[0i16; N]; N];
+                let mut a128 = [[0i128; N]; N];
+                for i in 0..N { for j in 0..N { a8[i][j] = a[i][j] as u8; a16[i][j] = (a[i][j] * 300) as i16; a128[i][j] = (a[i][j] as i128) << 70; } }
+                let mut w8 = [[0i32; N]; N];
+                let mut w16 = [[0i64; N]; N];
+                let mut w128 = [[0f64; N]; N];
+                for i in 0..N { for j in 0..N { w8[i][j] = a8[i][j] as i32; w16[i][j] = a16[i][j] as i64; w128[i][j] = a128[i][j] as f64; } }
+                check_eq!(cx, rm::$Mat::<u8>::from_arr(&a8).as_::<i32>().to_arr(), w8, "row-major u8 as_ i32");
+                check_eq!(cx, cm::$Mat::<u8>::from_arr(&a8).as_::<i32>().to_arr(), w8, "col-major u8 as_ i32");
+                check_eq!(cx, rm::$Mat::<i16>::from_arr(&a16).as_::<i64>().to_arr(), w16, "row-major i16 as_ i64");
+                check_eq!(cx, cm::$Mat::<i16>::from_arr(&a16).as_::<i64>().to_arr(), w16, "col-major i16 as_ i64");
+                check_eq!(cx, rm::$Mat::<i128>::from_arr(&a128).as_::<f64>().to_arr(), w128, "row-major i128 as_ f64");
+                check_eq!(cx, cm::$Mat::<i128>::from_arr(&a128).as_::<f64>().to_arr(), w128, "col-major i128 as_ f64");
+                check_eq!(cx, rm::$Mat::<i16>::from_arr(&a16).numcast::<i64>().map(|m| m.to_arr()), Some(w16), "row-major i16 numcast i64");
+                check_eq!(cx, cm::$Mat::<i16>::from_arr(&a16).numcast::<i64>().map(|m| m.to_arr()), Some(w16), "col-major i16 numcast i64");
+            }
             let want = display_model(&a);
             check_eq!(cx, format!("{}", r), want, "row-major Display");
             check_eq!(cx, format!("{}", c), want, "col-major Display");
@@ -464,7 +483,7 @@ pub fn property() -> Property {
         Check {
             name: "programs-owned",
             about: "the same side-by-side programs (0-12 steps over 24 operations: new, index, index_mut, transposed, transpose, map / map2 with consuming closures, layout conversion, all six size conversions, flat/nested row/col array round trips and cross pairs, from_{row,col}_array(s) of fresh arrays, diagonal, trace, identity/zero/Default/Zero, map_rows/map_cols, slices + OpenGL flag, mutable slices, Display plain and under flags, Clone/PartialEq, and - Copy domains only - apply, apply2, with_diagonal, broadcast_diagonal) generic over the element type and run in eight further element domains that differ in drop glue, Copy, size and alignment: String, Box<u64>, Rc<u64>, Vec<u64> (non-Copy, mem::needs_drop), a Clone-only u64, u16, u128 (align 16), [u64; 4]; elements are pairwise distinct values of the ring Z/2^64, built and read through the public fields by cloning",
-            kind: Kind::Tape { len: 96, quick: 60_000, thorough: 3_000_000, f: owned::programs },
+            kind: Kind::Tape { len: 96, quick: 100_000, thorough: 4_000_000, f: owned::programs },
         },
         Check {
             name: "element-domains",
@@ -473,7 +492,7 @@ pub fn property() -> Property {
         },
         Check {
             name: "index-bounds",
-            about: "every (i, j) from {0..=N*N, 2^16, 2^63, MAX/N, MAX/N+1, MAX-1, MAX}^2, read (Index) and write (IndexMut), all three sizes, on a matrix of pairwise distinct terms: in range both layouts resolve to model[i][j]; out of range (no such element) the access must not depend on the layout - both panic and leave the value untouched, or both resolve to the same abstract element",
+            about: "every (i, j) from {0..=N*N, 2^16, 2^63, MAX/N, MAX/N+1, MAX-1, MAX}^2, read (Index) and write (IndexMut), all three sizes, on matrices of pairwise distinct elements in five element domains (Sym, u8, i32, a 16-byte-aligned u128 newtype, a String newtype with drop glue): in range both layouts resolve to model[i][j]; out of range (no such element) the access must not depend on the layout - both panic and leave the value untouched, or both resolve to the same abstract element",
             kind: Kind::Index { total: edge::index_bounds_total(), quick: 1_000_000, thorough: 1_000_000, f: edge::index_bounds },
         },
         Check {
@@ -488,13 +507,13 @@ pub fn property() -> Property {
         },
         Check {
             name: "numeric-i32",
-            about: "as_, numcast (incl. whole-cast failure), trace and Display on integer matrices, both layouts, against the array model",
+            about: "as_, numcast (incl. whole-cast failure), trace and Display on integer matrices (i32; as_ / numcast also from u8, i16, i128 elements), both layouts, against the array model",
             kind: Kind::Tape { len: 40, quick: 100_000, thorough: 2_000_000, f: numeric },
         },
     ];
     Property {
         id: "C03",
-        rule: "a case is a generated program: start size in {2,3,4}, 0-12 steps chosen from 26 operations with generated arguments; elements are pairwise distinct opaque terms, so no matrix is ever symmetric and any (i,j)/(j,i) confusion is visible; non-trivial = at least 2 steps (numeric check: >= 3 non-zero entries and A != A^T; index-bounds: at least one of i, j is outside 0..N; display-flags: the spec is not the plain one, the text differs from the plain text - a dropped flag shows - and differs from the text of the transpose; numeric-edges: >= 2 special / near-limit elements and neither matrix is bitwise symmetric); distinct = distinct consumed tape prefix (index-bounds: distinct index)",
+        rule: "a case is a generated program: start size in {2,3,4}, 0-12 steps chosen from 26 operations with generated arguments; elements are pairwise distinct opaque terms, so no matrix is ever symmetric and any (i,j)/(j,i) confusion is visible; non-trivial = at least 2 steps (numeric check: >= 3 non-zero entries and A != A^T; index-bounds: at least one of i, j is outside 0..N; display-flags: the spec is not the plain one, the text differs from the plain text - a dropped flag shows - and differs from the text of the transpose; numeric-edges: >= 2 special / near-limit elements and neither matrix is bitwise symmetric; programs-owned: as programs-sym, at least 2 steps, elements are pairwise distinct images of a 64-bit mixer); distinct = distinct consumed tape prefix (index-bounds: distinct index)",
         assumptions: &[
             "rustc and the proptest runner/shrinker are trusted",
             "the public rows/cols fields are the ground truth: row-major rows.x is row 0, column-major cols.x is column 0",
@@ -502,6 +521,7 @@ pub fn property() -> Property {
             "Display under a non-default format spec: 'this format doesn't depend on the storage layout' is asserted as such (row-major text == col-major text); in addition each mij is taken to be the element formatted under the caller's spec (precision, width, fill, sign, #, 0 apply to every element, the separators are never padded), which is what both layouts do on the pinned tree",
             "an index pair (i, j) with i >= N or j >= N denotes no element: the docs do not say what happens, so a panic is NOT demanded; only that Index / IndexMut behave the same in both layouts (both panic and leave the value untouched, or both resolve to the same abstract element). usize is assumed to be 64 bits wide for the huge index candidates",
             "as_ is the per-element `as` cast and numcast the per-element scalar NumCast (oracles use the scalar operations, never the matrix ones); NaN payloads are not compared, every NaN counts as equal to every other",
+            "programs-owned: element values are members of the ring Z/2^64 (u16 domain: Z/2^16) stored in types that differ in drop glue / Copy / size / alignment; + and * are the wrapping ring operations, so Zero / One are lawful and trace() is independent of summation order; distinctness of the generated elements holds up to hash collisions (2^-64 per pair; 2^-16 in the u16 domain), which can only hide a defect, never cause a false alarm, because the model is computed from the same element values; drop counting (leaks, double drops) is property C18's and is not asserted here; One for matrices, apply, apply2, with_diagonal, broadcast_diagonal, as_ and numcast need T: Copy / numeric T in vek and are run in the Copy domains only",
             "not asserted: the order in which map / map2 / apply call the closure, the association order of trace() (so no trace on values that can overflow or round), Debug output (derived, shows the storage)",
         ],
         checks,
